@@ -54,17 +54,20 @@ def tables_for(rnd, d, q, e, n):
 def run(ctx):
     rnd = ctx.rnd
     ctx.rule = ("every combination of item delimiter (14 values incl. TAB, blank, CR, LF, backslash, quote characters) x all 20 quote characters x 2 escape characters x "
-                "2 quoting modes (x 4 line delimiter settings in the thorough tier) that DataFormat.validate accepts, x tables of 0-5 rows x 1-4 columns over an "
+                "2 quoting modes x 4 line delimiter settings (quick: one line delimiter per combination, rotating) that DataFormat.validate accepts, x tables of 0-5 rows x 1-4 columns over an "
                 "alphabet built from the configured special characters, blanks, CR, LF, CRLF; written by DelimitedRowWriter and read by delimited_rows (and through "
                 "cutplace.Writer / cutplace.rows for a sample); distinct = distinct (configuration, table); non-trivial = table has at least one cell")
     from cutplace import data, errors, rowio
 
     quotes = sorted("!\"#$%&'*+-/:;=?\\^_`~")
-    lds = LINE_DELIMS if ctx.tier == "thorough" else ["any"]
     per_cfg = 8 if ctx.tier == "thorough" else 3
     cases = []
     n_cfg = n_refused = 0
-    for d, q, e, quoting, ld in itertools.product(DELIMS, quotes, ESCAPES, QUOTINGS, lds):
+    combos = list(itertools.product(DELIMS, quotes, ESCAPES, QUOTINGS, LINE_DELIMS))
+    if ctx.tier == "quick":
+        # every (delimiter, quote, escape, quoting) with one line delimiter, rotating so that all four settings are spread over the configurations
+        combos = [c for k, c in enumerate(itertools.product(DELIMS, quotes, ESCAPES, QUOTINGS, LINE_DELIMS)) if (k // 4 + k % 4) % 4 == 0]
+    for d, q, e, quoting, ld in combos:
         f = make_format(d, q, e, quoting, ld)
         if f is None:
             n_refused += 1
